@@ -18,6 +18,33 @@ Import ListNotations.
 Require Import Celma.Conc.Interleave Celma.Conc.Singleton Celma.Conc.SingletonProofs
                Celma.Conc.ManagedThread Celma.Conc.ManagedProofs Celma.Conc.ConcGen.
 
+(** The protocols of the pinned source (before the repairs fixes/C20-1, C20-2) violate the
+    property; witnesses (schedules) that are also forced on the real code by the harness. *)
+Theorem C20_singleton_race_free_refuted :
+  exists n sched, race_state sg_local (sg_next sg_pinned) (sg_run sg_pinned n sched).
+Proof. exists 2, [0; 0; 0; 0]. exact sg_pinned_race. Qed.
+Print Assumptions C20_singleton_race_free_refuted.
+
+Theorem C20_managed_active_observed_refuted :
+  exists g k sched i f a,
+    2 <= i /\ nth_error (thr (mt_run mt_pinned g k sched)) i = Some (3, [f; a; 1]) /\ f = 0 /\ a <> 1.
+Proof.
+  exists 0, 1, [0; 1; 1; 0; 0; 2; 2; 2], 2, 0, 0.
+  split; [auto|]. split; [reflexivity|]. split; [reflexivity|discriminate].
+Qed.
+Print Assumptions C20_managed_active_observed_refuted.
+
+Theorem C20_managed_race_free_refuted :
+  exists g k sched, race_state sl_local (sl_next (mt_code mt_pinned)) (mt_run mt_pinned g k sched).
+Proof. exists 0, 1, [0]. exact mt_pinned_race. Qed.
+Print Assumptions C20_managed_race_free_refuted.
+
+(** Without the check under the lock the object is constructed twice. *)
+Theorem C20_singleton_once_refuted_without_second_check :
+  exists n sched, nctor (sg_run sg_nosecond n sched) = 2.
+Proof. exists 2, [0; 1; 0; 0; 0; 0; 1; 1; 1; 1]. exact sg_nosecond_twice. Qed.
+Print Assumptions C20_singleton_once_refuted_without_second_check.
+
 (** For every number n of threads that call instance() for the first time and every schedule,
     in every state reached: at most one object has been constructed; every thread that has
     returned received object number 1 (the one the instance pointer designates), and then
@@ -68,33 +95,6 @@ Theorem C20_managed_race_free :
     ~ race_state sl_local (sl_next (mt_code managed_proto)) (mt_run managed_proto g k sched).
 Proof. exact (mt_race_free managed_proto eq_refl). Qed.
 Print Assumptions C20_managed_race_free.
-
-(** The protocols of the pinned source (before the repairs fixes/C20-1, C20-2) violate the
-    property; witnesses (schedules) that are also forced on the real code by the harness. *)
-Theorem C20_singleton_race_free_refuted :
-  exists n sched, race_state sg_local (sg_next sg_pinned) (sg_run sg_pinned n sched).
-Proof. exists 2, [0; 0; 0; 0]. exact sg_pinned_race. Qed.
-Print Assumptions C20_singleton_race_free_refuted.
-
-Theorem C20_managed_active_observed_refuted :
-  exists g k sched i f a,
-    2 <= i /\ nth_error (thr (mt_run mt_pinned g k sched)) i = Some (3, [f; a; 1]) /\ f = 0 /\ a <> 1.
-Proof.
-  exists 0, 1, [0; 1; 1; 0; 0; 2; 2; 2], 2, 0, 0.
-  split; [auto|]. split; [reflexivity|]. split; [reflexivity|discriminate].
-Qed.
-Print Assumptions C20_managed_active_observed_refuted.
-
-Theorem C20_managed_race_free_refuted :
-  exists g k sched, race_state sl_local (sl_next (mt_code mt_pinned)) (mt_run mt_pinned g k sched).
-Proof. exists 0, 1, [0]. exact mt_pinned_race. Qed.
-Print Assumptions C20_managed_race_free_refuted.
-
-(** Without the check under the lock the object is constructed twice. *)
-Theorem C20_singleton_once_refuted_without_second_check :
-  exists n sched, nctor (sg_run sg_nosecond n sched) = 2.
-Proof. exists 2, [0; 1; 0; 0; 0; 0; 1; 1; 1; 1]. exact sg_nosecond_twice. Qed.
-Print Assumptions C20_singleton_once_refuted_without_second_check.
 
 (** The hypotheses are satisfiable / the statements not vacuous: complete runs. *)
 Example C20_nonvacuous_singleton :
